@@ -569,7 +569,10 @@ def main(argv):
                       "macro invocations are complete on one line"]
     ok = ck.translate(["gen_pp"])
     ck.prove("C13")
-    hb = ck.harness("h_pp")
+    # development aid: objects of individually recompiled source files of $VERIF_REPO linked in front of the
+    # shared libocca.so (a full scratch build of the tree takes hours on the loaded development machine)
+    overlay = os.environ.get("VERIF_C13_OVERLAY", "").split()
+    hb = ck.harness("h_pp", extra_flags=overlay)
     db = ck.driver("drv_cpp")
     # feature switches read from the translator: which repairs are present in the tree under test
     feat = {"guards": True, "elif_unevaluated": True, "unary_after_binary": False, "nested_ternary": False, "variadic": True,
